@@ -69,14 +69,23 @@ def is_dyadic(x, bits=12):
 
 
 # ------------------------------------------------------------------ generator
-def gen_selector_vals(rng, cur, count, dyadic):
-    """cur: the configuration in force (dt, delay, tol)"""
+def gen_selector_vals(rng, cur, count, dyadic, focus=None):
+    """cur: the configuration in force (dt, delay, tol); focus = (old delay, new delay) right after the maximum
+    delay was re-assigned: most values then lie between the two, exactly at the new one, or just beyond it"""
     dt, delay, tol = cur["dt"], cur["delay"], cur["tol"]
     nmax = int(math.ceil(delay / dt)) + 1
     out = []
     for _ in range(count):
         r = rng.random()
         k = rng.randint(0, nmax)
+        if focus is not None and rng.random() < 0.75:
+            old, new = focus
+            lo, hi = min(old, new), max(old, new)
+            just = (tol + dt / 8) if dyadic else (tol + 0.11 * dt)
+            v = rng.choice([new, new, (lo + hi) / 2, lo + 0.75 * (hi - lo), hi, lo, new + just, new + tol, hi + just,
+                            old + just, new - dt / 8 if dyadic else new - 0.13 * dt])
+            out.append(float(v))
+            continue
         if r < 0.30:
             v = k * dt                                    # on the grid (possibly beyond the delay)
         elif r < 0.55:
@@ -95,7 +104,7 @@ def gen_selector_vals(rng, cur, count, dyadic):
     return out
 
 
-DELAY_MULS = [0, 0, 0, 1, 2, 3, 2.5, 1.5, 4, 0.5]
+DELAY_MULS = [0, 0, 0, 1, 2, 3, 2.5, 1.5, 4, 0.5, 2.875, 2.25, 0.75, 1.125]
 
 
 def gen_setter(rng, case, cur, malformed):
@@ -106,14 +115,27 @@ def gen_setter(rng, case, cur, malformed):
     if k == "set_dt":
         if malformed and rng.random() < 0.3:
             return ["set_dt", rng.choice([0.0, -1.0])]
-        cands = [d for d in ([1.0, 0.5, 0.25, 2.0] if dyadic else [1.3, 0.1, 0.7, 0.9]) if cur["tol"] <= d / 4]
-        v = rng.choice(cands or [cur["dt"]])
+        base = [1.0, 0.5, 0.25, 2.0] if dyadic else [1.3, 0.1, 0.7, 0.9]
+        # also step times close to the present one (often the same number of stored steps)
+        near = [cur["dt"] * m for m in ((0.875, 1.125, 0.75) if dyadic else (0.9, 1.1))]
+        cands = [d for d in base + near + near if cur["tol"] <= d / 4 and d != cur["dt"]]
+        v = float(rng.choice(cands or [cur["dt"]]))
+        cur["focus"] = (cur["delay"], cur["delay"])
         cur["dt"] = v
         return ["set_dt", v]
     if k == "set_delay":
         if malformed and rng.random() < 0.3:
             return ["set_delay", -1.0]
-        v = float(rng.choice(DELAY_MULS) * cur["dt"])
+        dt, d = cur["dt"], cur["delay"]
+        if rng.random() < 0.6:
+            # a different maximum delay needing the SAME number of stored steps (either direction, off the grid)
+            n = int(math.ceil(d / dt)) or rng.choice([1, 2, 3])
+            fr = [0.125, 0.25, 0.5, 0.75, 0.875, 1.0] if dyadic else [0.3, 0.6, 0.9, 1.0]
+            cands = [(n - 1 + f) * dt for f in fr if (n - 1 + f) * dt != d]
+            v = float(rng.choice(cands))
+        else:
+            v = float(rng.choice(DELAY_MULS) * dt)
+        cur["focus"] = (d, v)
         cur["delay"] = v
         return ["set_delay", v]
     if k == "set_inplace":
@@ -167,12 +189,29 @@ def gen_case(rng: random.Random, idx: int):
     ops = []
     nops = rng.randint(4, 22)
     p_spike = rng.choice([0.2, 0.5, 0.8])
-    for _ in range(nops):
+    pending = []          # forced follow-up after a dt / delay re-assignment: use the synapse, then query around the limits
+    for _ in range(nops + 8):
+        if len(ops) >= nops and not pending:
+            break
         full = [cur["batch"]] + shape
         n = nel(full)
         r = rng.random()
-        if setters and rng.random() < 0.14:
-            ops.append(gen_setter(rng, case, cur, malformed))
+        if pending:
+            what = pending.pop(0)
+            if what == "step":
+                xs = [rng.choice([0.5, 2.0, -1.0, 1.0]) if case["nonbinary"] else (1.0 if rng.random() < 0.7 else 0.0) for _ in range(n)]
+                inj = [[rng.choice([0.5, -1.25, 2.0]) for _ in range(n)]] if cls == 1 and rng.random() < 0.5 else []
+                ops.append(["step", full, xs, inj])
+            else:
+                ssh = list(full) if rng.random() < 0.4 else full + [rng.choice([2, 3, 4])]
+                ops.append([what, ssh, gen_selector_vals(rng, cur, nel(ssh), dyadic, focus=cur.get("focus"))])
+                if not pending:
+                    cur.pop("focus", None)
+        elif setters and rng.random() < 0.14:
+            op = gen_setter(rng, case, cur, malformed)
+            ops.append(op)
+            if op[0] in ("set_dt", "set_delay") and "focus" in cur:
+                pending = ["step"] * rng.randint(2, 5) + ["cur_at", "spk_at"] + (["pos_at"] if cls == 3 and rng.random() < 0.5 else [])
         elif r < 0.50:
             if case["nonbinary"]:
                 xs = [rng.choice([0.0, 0.0, 1.0, 0.5, 2.0, -1.0]) for _ in range(n)]
@@ -659,6 +698,12 @@ def run(ctx):
         cases += exhaustive_cases(4)
     impl = F.run_impl(IMPL, {"cases": cases})
     model = F.eval_terms(ID, HEADER, [q_case(c) for c in cases], shard=12 if ctx["tier"] == "quick" else 60)
+    # a coqc shard killed under machine load comes back as exceptions: evaluate those cases once more
+    bad = [i for i, m in enumerate(model) if isinstance(m, Exception)]
+    if bad and len(bad) <= 60:
+        again = F.eval_terms(ID, HEADER, [q_case(cases[i]) for i in bad], shard=6, tag="retry")
+        for i, m in zip(bad, again):
+            model[i] = m
     mismatches, oracle_fail = [], []
     n_ok = 0
     for c, res, mt in zip(cases, impl, model):
